@@ -94,7 +94,9 @@ class BatchNorm(Operation):
             if (
                 self.gamma is not None
             ):  # backprop through optional affine transformation
-                gamma = self.gamma.data
+                # read gamma through `self.variables`: an in-place update of the caller's
+                # gamma tensor re-routes `variables` to its pre-mutation value, not `self.gamma`
+                gamma = self.variables[1].data
                 grad_ *= gamma.reshape(keepdims_shape)
             return grad_
 
